@@ -55,7 +55,7 @@ def run(seed, n, flags=""):
 def parse_kv(line):
     d = {"line": line[:4000]}
     for m in re.finditer(r"(\w+)=(\S+)", line):
-        d[m.group(1)] = m.group(2)[:3000]
+        d[m.group(1)] = m.group(2)[:24000]
     # ms= may contain spaces: take everything between ' ms=' and ' wit='
     m = re.search(r" ms=(.*?) wit=", line)
     if m:
